@@ -145,6 +145,10 @@ Definition trim_span (span : list tok) : nat * nat (* dropped in front, dropped 
 Definition set_dom (i : nat) (k : tok) (dom : list tok) : list tok :=
   map (fun d => if (idx d =? i)%nat then k else d) dom.
 
+(* an mtext starts a number only when it holds digits and nothing else (after the repair: other text in front of a split
+   number used to keep it from being formed) *)
+Definition all_digits (t : str) : bool := match t with [] => false | _ => forallb (fun ch => (48 <=? ch) && (ch <=? 57)) t end.
+
 (* the main loop.  [rest] = children from the current index on; [skip] = children still to be stepped over
    (Rust: i = end; i += 1).  Output: the children in front of the current index, reversed. *)
 Fixpoint merge_loop (fuel : nat) (c : ctx) (no_comma : bool) (dom : list tok) (skip : nat) (acc rest : list tok) : list tok :=
@@ -158,7 +162,7 @@ Fixpoint merge_loop (fuel : nat) (c : ctx) (no_comma : bool) (dom : list tok) (s
       | Datatypes.S s => merge_loop fuel' c no_comma dom s (k :: acc) r
       | O =>
         let start :=
-          if (tag k =? 0) || (tag k =? 2) then
+          if (tag k =? 0) || ((tag k =? 2) && all_digits (text k)) then
             negb (is_roman (text k) || has_any (block c) (text k) || ((1 <? byte_len (text k)) && has_any (dec c) (text k)))
           else (tag k =? 1) && negb (no_comma && str_eqb (text k) [44]) && has_any (dec c) (text k) in
         if negb start then merge_loop fuel' c no_comma dom 0 (k :: acc) r
